@@ -388,6 +388,58 @@ impl<'s> ParseState<'s> {
     }
 }
 
+/// Cursor primitives of `ParseState` for the external verification harness.
+#[cfg(glass_easel_verif)]
+pub mod verif_hooks {
+    use super::{ParseState, Position};
+    use std::ops::Range;
+
+    pub fn cur_index(ps: &ParseState) -> usize {
+        ps.cur_index()
+    }
+    pub fn position(ps: &ParseState) -> Position {
+        ps.position()
+    }
+    pub fn skip_bytes(ps: &mut ParseState, count: usize) {
+        ps.skip_bytes(count)
+    }
+    pub fn next(ps: &mut ParseState) -> Option<char> {
+        ps.next()
+    }
+    pub fn next_char_as_str<'s>(ps: &mut ParseState<'s>) -> &'s str {
+        ps.next_char_as_str()
+    }
+    pub fn skip_whitespace(ps: &mut ParseState) -> Option<Range<Position>> {
+        ps.skip_whitespace()
+    }
+    pub fn skip_whitespace_with_js_comments(ps: &mut ParseState) -> Option<Range<Position>> {
+        ps.skip_whitespace_with_js_comments()
+    }
+    pub fn skip_until_before<'s>(ps: &mut ParseState<'s>, until: &str) -> Option<&'s str> {
+        ps.skip_until_before(until)
+    }
+    pub fn skip_until_after<'s>(ps: &mut ParseState<'s>, until: &str) -> Option<&'s str> {
+        ps.skip_until_after(until)
+    }
+    pub fn consume_str(ps: &mut ParseState, s: &str) -> Option<Range<Position>> {
+        ps.consume_str(s)
+    }
+    pub fn peek_str(ps: &mut ParseState, s: &str) -> bool {
+        ps.peek_str(s)
+    }
+    pub fn try_parse_fail_after(ps: &mut ParseState, n: usize) {
+        let _: Option<()> = ps.try_parse(|ps| {
+            for _ in 0..n {
+                ps.next();
+            }
+            None
+        });
+    }
+    pub fn parse_expr_or_obj_inner(ps: &mut ParseState) -> Option<Box<super::expr::Expression>> {
+        super::expr::Expression::parse_expression_or_object_inner(ps, false)
+    }
+}
+
 pub fn parse<'s>(path: &str, source: &'s str) -> (tag::Template, ParseState<'s>) {
     let mut state = ParseState::new(path, source, Default::default());
     let template = tag::Template::parse(&mut state);
